@@ -42,6 +42,46 @@ type C16Case struct {
 	Segs []C16Seg `json:"segs"`
 	Args []C16Arg `json:"args"`
 	Opts Opts     `json:"opts,omitempty"` // echo mode: options under which the sanitized query is executed
+	// Prior: a call of the same template made right before the judged one and not judged itself - "same": with the
+	// very same arguments, "lookalike": with arguments of other types / other boundaries that print alike under %v
+	// (int64 1 <-> "1", true <-> "true", NULL <-> "<nil>", ("x y","z") <-> ("x","y z"))
+	Prior string `json:"prior,omitempty"`
+}
+
+// c16Lookalike returns arguments that differ from args in type or boundaries but print alike.
+func c16Lookalike(args []any) []any {
+	out := make([]any, len(args))
+	for i, a := range args {
+		switch v := a.(type) {
+		case nil:
+			out[i] = "<nil>"
+		case bool, int64, float64:
+			out[i] = fmt.Sprint(v)
+		case string:
+			out[i] = v
+			if n, err := strconv.ParseInt(v, 10, 64); err == nil && strconv.FormatInt(n, 10) == v {
+				out[i] = n
+			} else if v == "true" || v == "false" {
+				out[i] = v == "true"
+			} else if v == "<nil>" {
+				out[i] = nil
+			}
+		default:
+			out[i] = a
+		}
+	}
+	// move the boundary between two neighbouring strings: ("x y", "z") -> ("x", "y z")
+	for i := 0; i+1 < len(out); i++ {
+		l, ok1 := out[i].(string)
+		r, ok2 := out[i+1].(string)
+		if ok1 && ok2 {
+			if j := strings.LastIndexByte(l, ' '); j >= 0 {
+				out[i], out[i+1] = l[:j], l[j+1:]+" "+r
+				break
+			}
+		}
+	}
+	return out
 }
 
 func (a C16Arg) goValue() (any, bool) {
@@ -509,6 +549,14 @@ func checkC16(c *C16Case) Result {
 	res.Labels = append(res.Labels, "mode:"+c.Mode)
 	res.NonTrivial = hostile || decoys > 0
 	tmpl := c.template()
+	switch c.Prior {
+	case "same":
+		c16Sanitize(tmpl, args)
+		res.Labels = append(res.Labels, "prior-call:same-arguments")
+	case "lookalike":
+		c16Sanitize(tmpl, c16Lookalike(args))
+		res.Labels = append(res.Labels, "prior-call:look-alike-arguments")
+	}
 	s, err, p := c16Sanitize(tmpl, args)
 	res.Execs++
 	if p != "" {
@@ -618,7 +666,11 @@ func init() {
 			"placeholders are separated from neighbouring tokens by an operator, comma, parenthesis or white space; comments contain no backslash or carriage return",
 			"the reference literal renderer (sq.StrLit) is MySQL-correct; it is itself checked by the echo mode and by C17",
 		},
-		Gen:         genC16,
+		Gen: func(t *rapid.T) any {
+			c := genC16(t).(*C16Case)
+			c.Prior = rapid.SampledFrom([]string{"", "", "", "same", "lookalike", "lookalike"}).Draw(t, "prior")
+			return c
+		},
 		New:         func() any { return &C16Case{} },
 		Check:       func(c any) Result { return checkC16(c.(*C16Case)) },
 		FuzzTargets: []string{"FuzzSanitize"},
